@@ -351,6 +351,7 @@ func main() {
 	siteVisits := map[string]int{}
 	maxN := 0
 	outcomes := map[string]bool{}
+	pkgIndex := 0
 	for _, p := range ps {
 		canon, log0 := runWith(p, p.names(), nil)
 		transitions++
@@ -448,15 +449,18 @@ func main() {
 				c.Violate(k, differs(k, canon, got))
 			}
 		}
-		// fresh process
-		got := freshProcess(p)
-		transitions++
-		c.Eval(1)
-		c.NontrivialN(1)
-		c.Hist("fresh-process-compiles", 1)
-		if got != canon {
-			k := Case{Pkg: p.Name, Kind: "fresh-process"}
-			c.Violate(k, differs(k, canon, got))
+		// fresh process (quick: every third package of the pool; thorough: all)
+		pkgIndex++
+		if c.Thorough() || pkgIndex%3 == 1 {
+			got := freshProcess(p)
+			transitions++
+			c.Eval(1)
+			c.NontrivialN(1)
+			c.Hist("fresh-process-compiles", 1)
+			if got != canon {
+				k := Case{Pkg: p.Name, Kind: "fresh-process"}
+				c.Violate(k, differs(k, canon, got))
+			}
 		}
 		if len(log0) > 0 && states%7 == 0 {
 			c.Sample(map[string]any{"package": p.Name, "files": p.names(), "map_range_visits": log0, "canonical_result_sha": sha(canon)})
